@@ -16,8 +16,8 @@ import (
 // WriteOperandBytes for every active lane. That is independent of the other lanes only if the
 // iteration writes every byte it hands out: a byte that is written under a data-dependent
 // condition (sign fill only for negative values) keeps what an earlier lane left there.
-func checkScratchPerLane(c *core.Ctx, pkgs []string) {
-	st := c.Rule("R06.scratch", "a byte array declared outside a lane loop and handed out inside it (as an argument of a call or as the source of a copy) is completely rewritten by the iteration that hands it out: every byte of the window passed on is covered by writes - element stores at constant indices, binary.*.PutUintNN, copy with a source of known length - in blocks that lie inside the loop and dominate the use, whatever the lane's data. A byte written only under a data-dependent condition keeps the value a lower-numbered lane left", 6)
+func checkScratchPerLane(c *core.Ctx, rule string, pkgs []string) {
+	st := c.Rule(rule, "a byte array declared outside a lane loop and handed out inside it (as an argument of a call or as the source of a copy) is completely rewritten by the iteration that hands it out: every byte of the window passed on is covered by writes - element stores at constant indices, binary.*.PutUintNN, copy with a source of known length - in blocks that lie inside the loop and dominate the use, whatever the lane's data. A byte written only under a data-dependent condition keeps the value a lower-numbered lane left", 6)
 	for _, rel := range pkgs {
 		for _, fn := range c.SrcFuncs(rel) {
 			// lane-loop headers of the function
@@ -49,7 +49,7 @@ func checkScratchPerLane(c *core.Ctx, pkgs []string) {
 					if bt, ok := arr.Elem().Underlying().(*types.Basic); !ok || bt.Kind() != types.Uint8 {
 						continue
 					}
-					checkScratchAlloc(c, st, fn, al, int(arr.Len()), headers)
+					checkScratchAlloc(c, st, rule, fn, al, int(arr.Len()), headers)
 				}
 			}
 		}
@@ -100,7 +100,7 @@ func sliceLenConst(v ssa.Value) (int, bool) {
 	return 0, false
 }
 
-func checkScratchAlloc(c *core.Ctx, st *core.RuleStat, fn *ssa.Function, al *ssa.Alloc, n int, headers map[*ssa.BasicBlock]bool) {
+func checkScratchAlloc(c *core.Ctx, st *core.RuleStat, rule string, fn *ssa.Function, al *ssa.Alloc, n int, headers map[*ssa.BasicBlock]bool) {
 	if al.Referrers() == nil {
 		return
 	}
@@ -236,9 +236,9 @@ func checkScratchAlloc(c *core.Ctx, st *core.RuleStat, fn *ssa.Function, al *ssa
 		st.Sample("%s: bytes [%d,%d) of the shared buffer are rewritten in every iteration before they are handed out (%s): %v", core.FuncName(fn), u.lo, u.hi, u.what, ok)
 		switch {
 		case !ok:
-			c.ReportAt("R06.scratch", fn, u.in.Pos(), fmt.Sprintf("scratch-byte-carried:%s", core.FuncName(fn)), fmt.Sprintf("%s hands out byte %d of a buffer that is shared by all lanes without having written it on every path of the iteration: the byte keeps what a lower-numbered active lane left there (sign fill written only for negative values: a non-negative byte loaded after a negative one reads back as 0xFFFFFFxx), so the lane's result depends on other lanes", core.FuncName(fn), missing))
+			c.ReportAt(rule, fn, u.in.Pos(), fmt.Sprintf("scratch-byte-carried:%s", core.FuncName(fn)), fmt.Sprintf("%s hands out byte %d of a buffer that is shared by all lanes without having written it on every path of the iteration: the byte keeps what a lower-numbered active lane left there (sign fill written only for negative values: a non-negative byte loaded after a negative one reads back as 0xFFFFFFxx), so the lane's result depends on other lanes", core.FuncName(fn), missing))
 		case undecided != "":
-			c.Undecided("R06.scratch", fn, u.in.Pos(), "scratch:"+core.FuncName(fn), undecided)
+			c.Undecided(rule, fn, u.in.Pos(), "scratch:"+core.FuncName(fn), undecided)
 		}
 	}
 }
